@@ -61,9 +61,9 @@ def isBuiltinScalarName (n : Name) : Bool :=
 def scalarAccepts (n : Name) (v : Value) : Bool :=
   if n == "Boolean" then (match v with | .bool .. => true | .null _ => true | _ => false)
   else if n == "Int" then (match v with | .int .. => true | .null _ => true | _ => false)
-  else if n == "Float" then (match v with | .float .. => true | .null _ => true | _ => false)
+  else if n == "Float" then (match v with | .float .. => true | .int .. => true | .null _ => true | _ => false)
   else if n == "String" then (match v with | .str .. => true | .null _ => true | _ => false)
-  else if n == "ID" then (match v with | .str .. => true | .null _ => true | _ => false)
+  else if n == "ID" then (match v with | .str .. => true | .int .. => true | .null _ => true | _ => false)
   else true
 
 /-- `is_value_compatible_type_def` for every case that does not recurse (everything except an object
@@ -91,11 +91,28 @@ def namedLeaf (S : Schema) (v : Value) (n : Name) (np : Pos) : List Diag :=
     let r := leafCompat v td
     r.1 ++ (if r.2 then [] else [(ErrKind.TypeMismatch, v.pos)])
 
-/-- the variable case of `check_value` -/
-def varCheck (vars : Option (List VarDef)) (n : Name) (p : Pos) (t : GType) : List Diag :=
+def hasNonNullDefault (d : VarDef) : Bool :=
+  match d.default with
+  | some v => !Value.isNull v
+  | none => false
+
+/-- the variable case of `check_value_at` (spec `IsVariableUsageAllowed`): `ld` = the location (argument or
+    input field) has a default value -/
+def varCheck (vars : Option (List VarDef)) (n : Name) (p : Pos) (t : GType) (ld : Bool) : List Diag :=
   match varDef? (vars.getD []) n with
   | none => [(ErrKind.UnknownVariable, p)]
-  | some d => if typeCompat d.ty t then [] else [(ErrKind.TypeMismatch, p)]
+  | some d =>
+    let ok := match t with
+      | .nonNull inner =>
+        if !d.ty.isNonNull then (hasNonNullDefault d || ld) && typeCompat d.ty inner else typeCompat d.ty t
+      | _ => typeCompat d.ty t
+    if ok then [] else [(ErrKind.TypeMismatch, p)]
+
+/-- the named type under all list and non-null markers, with the position of its name -/
+def baseNamed : GType → Name × Pos
+  | .named n p => (n, p)
+  | .list t _ => baseNamed t
+  | .nonNull t => baseNamed t
 
 /-- per expected input field: diagnostics of the nested `check_value`, whether the field keeps `res` true,
     whether it was counted in `seen_fields` -/
@@ -105,49 +122,50 @@ structure FieldOutcome where
   seen : Bool
 
 mutual
-/-- `check_value(definitions, variables, value, expected_type, result)` -/
-def checkValue (S : Schema) (vars : Option (List VarDef)) : Value → GType → List Diag
-  | .var n p, t => varCheck vars n p t
-  | .list vs p, t =>
+/-- `check_value_at(definitions, variables, value, expected_type, location_has_default, result)`.
+    A value that is neither a variable, `null` nor a list is, through the `Type::NonNull` and `Type::List`
+    arms (a single value is accepted for a list type and checked against the item type), finally checked
+    against the innermost named type `baseNamed t`. -/
+def checkValue (S : Schema) (vars : Option (List VarDef)) : Value → GType → Bool → List Diag
+  | .var n p, t, ld => varCheck vars n p t ld
+  | .list vs p, t, _ =>
     match stripNonNull t with
     | .list inner _ => checkValueList S vars vs inner
     | .named n np => namedLeaf S (.list vs p) n np
     | .nonNull _ => []
-  | .obj fs p, t =>
-    match stripNonNull t with
-    | .list _ _ => [(ErrKind.TypeMismatch, p)]
-    | .named n np =>
-      match S.typeDef? n with
-      | none => [(ErrKind.TypeSystemError, np)]
-      | some td =>
-        if td.kind == .input then
-          let outcomes := td.inputs.map fun f =>
-            match lookupField S vars fs f.name f.ty with
-            | some ds => FieldOutcome.mk ds true true
-            | none =>
-              if f.ty.isNonNull && f.default.isNone then FieldOutcome.mk [] false false
-              else FieldOutcome.mk [] true true
-          let seen := (outcomes.filter (·.seen)).length
-          let res := outcomes.all (·.ok) && !(seen < fs.length)
-          outcomes.flatMap (·.diags) ++ (if res then [] else [(ErrKind.TypeMismatch, p)])
-        else
-          let r := leafCompat (.obj fs p) td
-          r.1 ++ (if r.2 then [] else [(ErrKind.TypeMismatch, p)])
-    | .nonNull _ => []
-  | v, t =>
-    if t.isNonNull && Value.isNull v then [(ErrKind.TypeMismatch, v.pos)]
-    else match stripNonNull t with
-      | .list _ _ => if Value.isNull v then [] else [(ErrKind.TypeMismatch, v.pos)]
-      | .named n np => namedLeaf S v n np
-      | .nonNull _ => []
+  | .obj fs p, t, _ =>
+    match S.typeDef? (baseNamed t).1 with
+    | none => [(ErrKind.TypeSystemError, (baseNamed t).2)]
+    | some td =>
+      if td.kind == .input then
+        let outcomes := td.inputs.map fun f =>
+          match lookupField S vars fs f.name f.ty f.default.isSome with
+          | some ds => FieldOutcome.mk ds true true
+          | none =>
+            if f.ty.isNonNull && f.default.isNone then FieldOutcome.mk [] false false
+            else FieldOutcome.mk [] true false
+        let seen := (outcomes.filter (·.seen)).length
+        let res := outcomes.all (·.ok) && !(seen < fs.length)
+        outcomes.flatMap (·.diags) ++ (if res then [] else [(ErrKind.TypeMismatch, p)])
+      else
+        let r := leafCompat (.obj fs p) td
+        r.1 ++ (if r.2 then [] else [(ErrKind.TypeMismatch, p)])
+  | v, t, _ =>
+    if Value.isNull v then
+      (if t.isNonNull then [(ErrKind.TypeMismatch, v.pos)]
+       else match stripNonNull t with
+         | .list _ _ => []
+         | .named n np => namedLeaf S v n np
+         | .nonNull _ => [])
+    else namedLeaf S v (baseNamed t).1 (baseNamed t).2
 /-- the loop over the elements of a list literal -/
 def checkValueList (S : Schema) (vars : Option (List VarDef)) : List Value → GType → List Diag
   | [], _ => []
-  | v :: vs, t => checkValue S vars v t ++ checkValueList S vars vs t
-/-- `value.fields.iter().find(|(key, _)| expected_field.name == key.name)` followed by the nested `check_value` -/
-def lookupField (S : Schema) (vars : Option (List VarDef)) : List (Name × Pos × Value) → Name → GType → Option (List Diag)
-  | [], _, _ => none
-  | (k, _, v) :: rest, n, t => if n == k then some (checkValue S vars v t) else lookupField S vars rest n t
+  | v :: vs, t => checkValue S vars v t false ++ checkValueList S vars vs t
+/-- `value.fields.iter().find(|(key, _)| expected_field.name == key.name)` followed by the nested `check_value_at` -/
+def lookupField (S : Schema) (vars : Option (List VarDef)) : List (Name × Pos × Value) → Name → GType → Bool → Option (List Diag)
+  | [], _, _, _ => none
+  | (k, _, v) :: rest, n, t, ld => if n == k then some (checkValue S vars v t ld) else lookupField S vars rest n t ld
 end
 
 /-- `check_arguments(definitions, variables, parent_pos, …, arguments, arguments_definition, result)`;
@@ -162,7 +180,7 @@ def checkArguments (S : Schema) (vars : Option (List VarDef)) (parentPos : Pos) 
       | none =>
         if !d.ty.isNonNull || d.default.isSome then ([], false)
         else ([(ErrKind.RequiredArgumentNotSpecified, parentPos)], false)
-      | some a => (checkValue S vars a.2.2 d.ty, true)
+      | some a => (checkValue S vars a.2.2 d.ty d.default.isSome, true)
     let seen := (perDef.filter (·.2)).length
     perDef.flatMap (·.1) ++
       (if seen < args.length then
